@@ -1,6 +1,7 @@
 /-
-  Model/Stun — src/proto/stun.rs (after the D3 fix: malformed attributes make the packet
-  unparsable instead of panicking).
+  Model/Stun — src/proto/stun.rs (after the fixes D3/D13/D14: a TLV that runs past the data makes
+  the packet unparsable instead of panicking, attributes are skipped with their padding, and an
+  attribute too short for its type is kept as a generic attribute).
 -/
 import Masscanned.Model.Basic
 namespace Masscanned
@@ -17,15 +18,9 @@ def stunAttr (v : Bytes) : Option (StunAttr × Nat) :=
   let ty := rdBE (slice v 0 2)
   let len := rdBE (slice v 2 2)
   if v.length < 4 + len then none else
-  if ty = 1 then
-    if len < 4 then none else
-    let fam := at8 v 5
-    if fam = 1 then (if len < 8 then none else some (.mapped, len))
-    else if fam = 2 then (if len < 20 then none else some (.mapped, len))
-    else none
-  else if ty = 3 then
-    if len < 4 then none else
-    some (.changeRequest ((rdBE (slice v 4 4)) / 2 % 2 = 1), len)
+  if ty = 1 ∧ len ≥ 8 ∧ at8 v 5 = 1 then some (.mapped, len)
+  else if ty = 1 ∧ len ≥ 20 ∧ at8 v 5 = 2 then some (.mapped, len)
+  else if ty = 3 ∧ len ≥ 4 then some (.changeRequest ((rdBE (slice v 4 4)) / 2 % 2 = 1), len)
   else some (.generic, len)
 
 /-- `get_attributes`: `while i + 4 < data.len()`; each step skips the attribute padded to 4 bytes (D13 fix) -/
